@@ -54,7 +54,7 @@ Definition sids (ns : list node) : list nat :=
 Definition iids (ns : list node) : list nat := flat_map (fun n => match n with NInstr i _ => [i] | _ => [] end) ns.
 Definition dids (ns : list node) : list nat := flat_map (fun n => match n with NData _ el => map fst el | _ => [] end) ns.
 Definition canonical (nsyms : nat) (ns : list node) : Prop :=
-  NoDup (sids ns) /\ (forall s, In s (sids ns) -> (s < nsyms)%nat) /\ dids ns = seq 0 (length (dids ns)).
+  NoDup (sids ns) /\ (forall s, In s (sids ns) -> (s < nsyms)%nat) /\ dids ns = seq 0 (length (dids ns)) /\ NoDup (iids ns).
 
 (* what the matcher produces: an expression argument sits at a parameter of integer / unspecified type, a nested match at
    a parameter of sub-rule type, one argument per parameter (Proofs/StaticKnownP.v: matcher_kinded) *)
